@@ -54,6 +54,9 @@ TEXT["C10"] = ("Lean theorems: package guard, import table rows (unnamed / liter
 TEXT["C11"] = ("Lean theorems over the import list: adding never removes, adds only the requested path; the clean-up deletes only imports of matched paths, keeps a matched import that is still referred to and not replaced by name, deletes one that is no longer referred to; unrelated imports survive. Tie: import multiset of the real engine vs the model on generated patches that add/delete/rename/match imports. astutil.AddNamedImport/DeleteNamedImport and imports.Process are assumed to have set semantics (validated differentially).",
          "6 C11", "Lean 4 proof over import-list model + differential import-multiset tie")
 
+TEXT["C17"] = ("Lean theorems: after any number of changes the comment list is a sublist of the input's (nothing invented, duplicated or reordered); a comment survives unless wholly inside a changed interval; NoPos intervals never remove comments (header/package comments are out of reach); metavariable copies carry no comments. Tie: (i) end-to-end oracle on the real binary: declarations with unchanged canonical syntax keep exactly their comments, header comments unchanged, no text more often than in the input; (ii) Lean filterComments on the intervals of the real engine vs the comments present in patch.File.Apply's output. Partial: ast.NewCommentMap, astdiff's edit script, intervalset and go/printer's comment placement are external.",
+         "6 C17", "Lean 4 proof over comment-filter model + end-to-end comment oracle + differential interval tie")
+
 REASONS = {}
 
 def main():
